@@ -3,6 +3,7 @@
    are compared with it by `srcdiff`, unreadable sub-directories by `sysdiff`). *)
 From Coq Require Import List String NArith Bool.
 From AM Require Import Rust.Ast Gen.Dirs Ref.Tree Proofs.Tree Tie.Dirs Gen.Archive Tie.Archive.
+From AM Require Import Gen.Embed Tie.Embed.
 Import ListNotations.
 
 Theorem C11_dir_ids_are_exactly_the_matching_files : forall t exts d l,
@@ -40,3 +41,14 @@ Theorem C11_code_archives_list_each_entry_once :
   register_file_wf zip_register_file = true /\ register_file_wf tar_register_file = true /\
   read_dir_wf zip_read_dir = true /\ read_dir_wf tar_read_dir = true.
 Proof. exact archives_list_each_entry_once. Qed.
+
+(* the listings an Embedded source hands out are the ones the embed! macro builds: every file and
+   every directory entered in its parent's listing, sorted, nothing removed *)
+Theorem C11_code_embed_macro_lists_every_entry :
+  fn_body Content_push_file = expected_Content_push_file /\
+  fn_body Content_push_dir = expected_Content_push_dir /\
+  fn_body Content_sort = expected_Content_sort /\
+  fn_body embed_read_dir = expected_embed_read_dir /\
+  fn_body Id_push = expected_Id_push /\
+  fn_body embed_extension_of = expected_embed_extension_of.
+Proof. exact embed_macro_as_modelled. Qed.
